@@ -15,3 +15,6 @@ fn c17_ring_compat_document_no_panic() {
     kani::cover!(out.is_some(), "some input is a ring document that gets rewritten");
     std::mem::forget(out);
 }
+
+// A variant for documents of up to 264 bytes (where the one-byte DER length and its `as u8` arithmetic wrap) was probed and
+// did not finish within 15 minutes (unwind 270 over Vec / subslice::find): long documents are outside the claim.
